@@ -229,6 +229,7 @@ package consensus
 //@   invariant loop#2 @no-overflow $n < len(txn.SiacoinOutputs) ==> sumSCO(txn.SiacoinOutputs, $n + 1) < types.M128
 //@   invariant loop#3 @no-overflow $n < len(txn.FileContracts) ==> sumSCO(txn.SiacoinOutputs, len(txn.SiacoinOutputs)) + sumFCPayout(txn.FileContracts, $n + 1) < types.M128
 //@   invariant loop#3 @payout-sum types.u128(outputSum) == sumSCO(txn.SiacoinOutputs, len(txn.SiacoinOutputs)) + sumFCPayout(txn.FileContracts, $n)
+//@   invariant loop#4 @fee-step $n < len(txn.MinerFees) ==> sumCur(txn.MinerFees, $n + 1) == sumCur(txn.MinerFees, $n) + types.u128(txn.MinerFees[$n])
 //@   invariant loop#4 @fee-sum types.u128(outputSum) == sumSCO(txn.SiacoinOutputs, len(txn.SiacoinOutputs)) + sumFCPayout(txn.FileContracts, len(txn.FileContracts)) + sumCur(txn.MinerFees, $n)
 //@   ensures @M1-timelock result == nil && 0 <= k && k < len(txn.SiacoinInputs) ==> in.UnlockConditions.Timelock <= cheight(ms.base)
 //@   ensures @U1-unspent result == nil && 0 <= k && k < len(txn.SiacoinInputs) ==> !has(ms.spends, in.ParentID)
